@@ -131,7 +131,6 @@ impl DTree {
 
 //%% extract src/repr/dtree.rs :: impl DTree :: fn init_vars
 //%% @pub
-//%% @attr #[verifier::exec_allows_no_decreases_clause]
 //%% @rewrite 1 /for c in clause\.iter\(\) \{/ => for c in it: clause.iter() {
 //%% @spec
         requires leaf_vars_sub(*old(self)),
@@ -139,6 +138,7 @@ impl DTree {
             // afterwards: vars = vars(l) U vars(r) at every node, the clause's variables at every leaf
             vars_ok(*final(self)), leaf_vars_sub(*final(self)),
             leaves(*final(self)) == leaves(*old(self)),
+        decreases *old(self), // #TERM
 //%% @loop 1 /^for c in it: clause\.iter\(\)$/
                     invariant
                         forall|v: VarLabel| #[trigger] vars.has(v) ==> clause_has(clause@, v),
@@ -147,11 +147,11 @@ impl DTree {
 
 //%% extract src/repr/dtree.rs :: impl DTree :: fn gen_cutset
 //%% @pub
-//%% @attr #[verifier::exec_allows_no_decreases_clause]
 //%% @spec
         ensures
             cut_ok(*final(self), set_of(*ancestor_cutset)),
             same_but_cut(*old(self), *final(self)),
+        decreases *old(self), // #TERM
 //%% @entry
         proof {
             assert forall|a: VarSet, b: VarSet, c: VarSet| #[trigger] is_union(a, b, c) implies set_of(c) == sor(set_of(a), set_of(b)) by {
@@ -162,13 +162,13 @@ impl DTree {
 
 //%% extract src/repr/dtree.rs :: impl DTree :: fn balanced
 //%% @pub
-//%% @attr #[verifier::exec_allows_no_decreases_clause]
 //%% @ret r
 //%% @spec
         requires trees.len() > 0, forall|i: int| 0 <= i < trees.len() ==> leaf_vars_sub(#[trigger] trees@[i]),
         ensures
             // the leaves of the composed tree are exactly the leaves of the given trees, in order
             leaves(r) == all_leaves(trees@), leaf_vars_sub(r),
+        decreases trees.len(), // #TERM
 //%% @entry
         proof {
             let mid = (trees.len() / 2) as int;
